@@ -207,6 +207,17 @@ type MapThenLists struct {
 	D []string
 }
 
+// Shift: pointers to classes of different shapes; which ones are nil decides the number each
+// class definition gets in a message, so consecutive messages of ONE type number them differently
+type Shift struct {
+	A *Inner
+	B *Inner2
+	C *NamedS
+	D *K01
+	E *Embedded
+	N int32
+}
+
 // GF: graph node with two pointer slots and one filler field of every kind in front of them (C04)
 type GF struct {
 	Id  int32
@@ -339,7 +350,7 @@ var Types = []Entry{
 	e(MpI32Str{}, "map"), e(MpI64Str{}, "map"), e(MpIface{}, "map", "iface"),
 	e(GF{}, "recursive"), e(GHolder{}, "recursive"), e(Shr{}, "slice", "map"),
 	e(Node{}, "recursive"), e(Tree{}, "recursive"), e(MNode{}, "recursive"), e(Ping{}, "recursive"), e(GNode{}, "recursive"),
-	e(Bag{}, "classes"),
+	e(Bag{}, "classes"), e(Shift{}, "classes", "ptr"),
 	top([]int32{}, "slice"), top([]string{}, "slice"), top([]Inner{}, "slice"), top([]*Inner{}, "slice"), top([]interface{}{}, "slice", "iface"),
 	top([]float64{}, "slice"), top([]int64{}, "slice"), top(NamedList{}, "slice", "custom"),
 	top(map[string]string{}, "map", "top-unnamed-map"), top(map[string]int32{}, "map", "top-unnamed-map"), top(map[interface{}]interface{}{}, "map", "iface"), top(NamedMap{}, "map", "custom"),
